@@ -20,6 +20,21 @@ def run_check(pid):
 
 
 def main():
+    import shutil
+    import tempfile
+    # evidence files must always come from runs on the unchanged tree: save them and put them back
+    bak = tempfile.mkdtemp(prefix="evid_bak_")
+    shutil.copytree(os.path.join(ROOT, "evidence"), os.path.join(bak, "evidence"))
+    try:
+        _main()
+    finally:
+        shutil.rmtree(os.path.join(ROOT, "evidence"), ignore_errors=True)
+        shutil.copytree(os.path.join(bak, "evidence"), os.path.join(ROOT, "evidence"))
+        shutil.rmtree(bak, ignore_errors=True)
+        shutil.rmtree(os.path.join(ROOT, "replays"), ignore_errors=True)
+
+
+def _main():
     cat = json.load(open(os.path.join(ROOT, "mutants", "catalog.json")))
     sel = [a for a in sys.argv[1:] if not a.startswith("--")]
     res = []
